@@ -90,7 +90,7 @@ class OrderBookSetup(Contract):
             return
         yield ('C07.orderbook.lengths', S.eq(c.n, nO))
         covered = lambda o: S.psum(lambda k: S.ite(cover(o, k), dt.f(k) * dfR.f(k), 0.0), 0, n, pc)
-        yield ('C20.orderbook.cost', S.forall(nO, lambda o: S.eq(c.f(o), ctx['cf'](o) * covered(o) * ctx['pf'](o))))
+        yield ('C17.costs_only.orderbook.equals_full_cost' if case['costs_only'] else 'C20.orderbook.cost', S.forall(nO, lambda o: S.eq(c.f(o), ctx['cf'](o) * covered(o) * ctx['pf'](o))))
         if case['costs_only']:
             return
         l, u, m = res.get('l'), res.get('u'), res.get('mapping')
